@@ -420,6 +420,10 @@ impl NetworkBehaviour for Probe {
     }
     fn poll(&mut self, cx: &mut Context<'_>) -> Poll<ToSwarm<ProbeOut, THandlerInEvent<Self>>> {
         if let Some(c) = self.cmds.pop_front() {
+            if let ToSwarm::NotifyHandler { event, .. } = &c {
+                // the moment the Swarm takes the command = emission time
+                self.rec(LogEv::Other { f: self.f, what: format!("emit {event}") });
+            }
             return Poll::Ready(c);
         }
         self.waker = Some(cx.waker().clone());
@@ -511,6 +515,10 @@ impl ConnectionHandler for ProbeHandler {
 /// Access to the probe(s) inside a (possibly composed) behaviour.
 pub trait HasProbe: NetworkBehaviour {
     fn probe(&mut self) -> &mut Probe;
+    /// probe of field `f` (composed behaviours with several probes)
+    fn probe_n(&mut self, _f: u8) -> &mut Probe {
+        self.probe()
+    }
 }
 impl HasProbe for Probe {
     fn probe(&mut self) -> &mut Probe {
